@@ -765,6 +765,11 @@ def witness_cpp(t, workdir: pathlib.Path, std: str, direction: str, n_cases: int
         return {"harness_error": c.stderr[:1500]}, 0
     r = subprocess.run([str(exe)], capture_output=True, text=True, timeout=180)
     lines = {int(l.split()[0]): l.split() for l in r.stdout.splitlines() if l.strip()}
+    n_expected = len(cases) if direction == "ser" else len(inputs)
+    if r.returncode != 0 and len(lines) == n_expected and ("LeakSanitizer" in r.stderr or "AddressSanitizer" in r.stderr or "runtime error" in r.stderr):
+        # every case printed its result, and the sanitizers still object at exit: a leak (or a late report)
+        return {"input": {"all_cases": n_expected}, "why": f"the generated C++ {'serializer' if direction == 'ser' else 'deserializer'} passes every case but the sanitizers report at exit: {r.stderr[:700]}",
+                "evaluations": n_expected}, n_expected
     if direction == "ser":
         for k, (v, cap) in enumerate(cases):
             erc, eb = serialize_ref(t, v, cap)
